@@ -194,7 +194,11 @@ def run(tier: str) -> Run:
             for k in range(deg + 1):
                 ps[f'bkg_a{k}'] = make_param(i, f'a{k}', P(dim='ONE', positive=False, unit=Unit.param('y') / (UX ** k)))
             return call_model(repo, i, m, ps)
-        outs = [o for o in it.run_all(go) if o.kind == 'return']
+        all_outs = it.run_all(go)
+        outs = [o for o in all_outs if o.kind == 'return']
+        if not outs and all_outs and all(o.kind == 'raise' for o in all_outs):
+            r5.fail(f'degree {deg}', pwhere, {'outcomes': [(o.kind, o.exc_type, o.where) for o in all_outs][:3], 'documented': 'a polynomial of degree 1..6 evaluates'}, key='polynomial')
+            continue
         if len(outs) != 1 or outs[0].value.term is None:
             raise AnalysisError(f'PolynomialModel(degree={deg}) could not be evaluated: {getattr(outs[0].value, "why", "") if outs else ""}')
         v = outs[0].value
